@@ -21,6 +21,7 @@ func main() {
 	resume := flag.Int64("resume", 0, "(internal)")
 	out := flag.String("out", "", "(internal)")
 	replay := flag.String("replay", "", "replay file")
+	aux := flag.String("aux", "", "(internal) run the check's auxiliary computation")
 	flag.Parse()
 	if s := os.Getenv("VERIF_SEED"); s != "" && *seed == 0 {
 		if v, err := strconv.ParseInt(s, 10, 64); err == nil {
@@ -31,6 +32,13 @@ func main() {
 	if ch == nil {
 		fmt.Println("unknown check", *id, "; have", mc.IDs())
 		os.Exit(2)
+	}
+	if *aux != "" {
+		if ch.Aux == nil {
+			os.Exit(2)
+		}
+		fmt.Print(ch.Aux(*aux))
+		return
 	}
 	if *replay != "" {
 		os.Exit(mc.RunReplay(ch, *tier, *replay))
